@@ -421,6 +421,18 @@ func writeFailureEvidence(id, tier string, seed int, reason string, wall float64
 // runWitness runs the bounded witness finder (a property-level oracle against the real code).
 func runWitness(id, spec string) (input, msg, cmd string) {
 	fs := strings.Fields(spec)
+	if len(fs) >= 2 && fs[0] == "histprobe" && fs[1] == "env" {
+		bin := filepath.Join(verifDir, "bin", "histprobe")
+		wctx, wcancel := context.WithTimeout(context.Background(), 60*time.Second)
+		defer wcancel()
+		out, _ := exec.CommandContext(wctx, bin, "env", "C13").CombinedOutput()
+		for _, l := range strings.Split(string(out), "\n") {
+			if strings.HasPrefix(l, "FAILING-CASE ") {
+				return strings.TrimPrefix(l, "FAILING-CASE "), "the property-level oracle fails on this case against the real code", bin + " env C13"
+			}
+		}
+		return "", "", ""
+	}
 	if len(fs) >= 3 && fs[0] == "histprobe" {
 		return runHistWitness(id, fs)
 	}
